@@ -141,6 +141,11 @@ Theorem C16_motor_relaxes_monotonically : 0 < tau_up -> 0 < tau_down -> forall m
   Rabs (motor_sol tau_up tau_down m0 u0 t - u0) <= Rabs (motor_sol tau_up tau_down m0 u0 s - u0).
 Proof. exact (motor_sol_monotone tau_up tau_down). Qed.
 
+(* ... and it tends to the command *)
+Theorem C16_motor_reaches_command : 0 < tau_up -> 0 < tau_down ->
+  forall m0 u0, is_lim (motor_sol tau_up tau_down m0 u0) p_infty u0.
+Proof. exact (motor_sol_lim tau_up tau_down). Qed.
+
 Theorem C16_translation_invariant : forall a b px py pz vx vy vz q0 q1 q2 q3 wx wy wz m0 m1 m2 m3 u0 u1 u2 u3,
   f (px + a) (py + b) pz vx vy vz q0 q1 q2 q3 wx wy wz m0 m1 m2 m3 u0 u1 u2 u3 =
   f px py pz vx vy vz q0 q1 q2 q3 wx wy wz m0 m1 m2 m3 u0 u1 u2 u3.
@@ -188,5 +193,6 @@ Print Assumptions C16_motor_closed_form_solves.
 Print Assumptions C16_motor_closed_form_start.
 Print Assumptions C16_motor_never_crosses_command.
 Print Assumptions C16_motor_relaxes_monotonically.
+Print Assumptions C16_motor_reaches_command.
 Print Assumptions C16_translation_invariant.
 Print Assumptions C16_yaw_equivariant.
